@@ -3,6 +3,7 @@ package throttler
 import (
 	"context"
 	"errors"
+	"sync/atomic"
 	"time"
 )
 
@@ -192,4 +193,341 @@ func VerifC36Twin() {
 	t := New(delays, 1, 0)
 	t.Signal()
 	verifAssert("twin", t.Level() == 0)
+}
+
+// ---------------------------------------------------------------------------------------------
+// Concurrent callers: requests (Delay), pressure signals (Signal/Release/Reset), observers
+// (Level/GetDelay) and the idle timer act on one throttler at the same time.
+//
+// Every call runs on its own goroutine, so that a call which does not come back is observable:
+// after each step the harness waits until every goroutine is finished or parked (verifSettle) and
+// then looks at completion flags. The model clock only moves when the harness sleeps, and it
+// sleeps either exactly up to the next instant at which the statement says something happens
+// (a request's delay is over, the idle timeout expires) or to some instant strictly before it.
+//
+// Oracle, from the property statement:
+//   - Signal, Release, Reset, Level and GetDelay return without any (model) time passing, whatever
+//     requests are waiting ("never block behind a waiting request");
+//   - the level follows the reference arithmetic, and is zero once the idle timeout after the last
+//     Signal/Release has passed - also while requests are waiting;
+//   - a request issued at clock s when the current delay was d returns at s+d with nil, not later
+//     and not earlier, whatever happens to the level meanwhile; if its context ends first it
+//     returns at that instant with the context's error.
+
+// verifC36NativeRest is installed by rest_test.go (native replay build only): testing/synctest's
+// Wait never returns while a goroutine of the bubble is parked on a sync.RWMutex whose holder waits
+// for the fake clock, so the native verifSettle needs a wait that counts such a goroutine as parked -
+// as the symbolic verifSettle does.
+var verifC36NativeRest func()
+
+func verifC36UseNativeRest() {
+	if verifC36NativeRest != nil {
+		verifWaitHook = verifC36NativeRest
+	}
+}
+
+type verifC36Req struct {
+	ctx      *verifCtx
+	start    int64         // clock when the request was issued
+	d        time.Duration // the delay current at that moment (reference)
+	pre      bool          // its context had ended before it was issued
+	canceled bool          // the harness ended its context while it was waiting ...
+	cancelAt int64         // ... at this clock
+	seen     bool          // completion already checked
+	done     atomic.Int32
+	end      int64
+	err      error
+}
+
+type verifC36Call struct {
+	done  atomic.Int32
+	level int
+	delay time.Duration
+}
+
+type verifC36H struct {
+	t      *Throttler
+	delays []time.Duration
+	n      int
+	rate   int
+	idle   time.Duration
+	ref    int   // reference level
+	armed  bool  // reference: the idle timeout is running ...
+	idleAt int64 // ... and expires at this clock
+	reqs   []*verifC36Req
+	ctxErr error
+}
+
+func verifC36NewH(n int, rate int, idleOn bool) *verifC36H {
+	h := &verifC36H{n: n, rate: rate, ctxErr: errors.New("ctx ended")}
+	h.delays = make([]time.Duration, n)
+	for i := range h.delays {
+		// any table of non-negative durations below 2^40 ns (negative entries: VerifC36Delay)
+		h.delays[i] = time.Duration(verifI64(verifName("delay", i)))
+		verifAssume(h.delays[i] >= 0)
+		verifAssume(h.delays[i] < (1 << 40))
+	}
+	if idleOn {
+		h.idle = time.Duration(verifI64("idle"))
+		verifAssume(h.idle > 0)
+		verifAssume(h.idle < (1 << 40))
+	}
+	h.t = New(h.delays, rate, h.idle)
+	return h
+}
+
+// cleanup ends the context of every request still waiting, so that no goroutine of the native
+// replay stays behind when the entry is over (or has failed).
+func (h *verifC36H) cleanup() {
+	for _, r := range h.reqs {
+		if r.done.Load() == 0 && r.ctx.err == nil {
+			r.ctx.err = h.ctxErr
+			close(r.ctx.done)
+		}
+	}
+}
+
+// call runs one of Signal/Release/Reset/observe on its own goroutine and waits for quiescence.
+func (h *verifC36H) call(kind int) *verifC36Call {
+	c := &verifC36Call{}
+	go func() {
+		switch kind {
+		case 0:
+			h.t.Signal()
+		case 1:
+			h.t.Release()
+		case 2:
+			h.t.Reset()
+		case 3:
+			c.level = h.t.Level()
+			c.delay = h.t.GetDelay()
+		}
+		c.done.Store(1)
+	}()
+	verifSettle()
+	return c
+}
+
+func (h *verifC36H) signal() {
+	c := h.call(0)
+	verifAssert("C36-signal-returns-at-once", c.done.Load() == 1)
+	if h.ref < h.n-1 {
+		h.ref++
+	}
+	h.touch()
+}
+
+func (h *verifC36H) release() {
+	c := h.call(1)
+	verifAssert("C36-release-returns-at-once", c.done.Load() == 1)
+	h.ref -= h.rate
+	if h.ref < 0 {
+		h.ref = 0
+	}
+	h.touch()
+}
+
+func (h *verifC36H) reset() {
+	c := h.call(2)
+	verifAssert("C36-reset-returns-at-once", c.done.Load() == 1)
+	h.ref = 0
+	h.armed = false
+}
+
+// touch: a Signal or Release (re)starts the idle timeout.
+func (h *verifC36H) touch() {
+	if h.idle > 0 {
+		h.armed = true
+		h.idleAt = verifClock() + int64(h.idle)
+	}
+}
+
+// observe: Level and GetDelay answer at once and agree with the reference.
+func (h *verifC36H) observe() {
+	c := h.call(3)
+	verifAssert("C36-level-getdelay-never-block", c.done.Load() == 1)
+	verifAssert("C36-conc-level", c.level == h.ref)
+	verifAssert("C36-conc-getdelay", c.delay == h.delays[h.ref])
+}
+
+// request issues a Delay on its own goroutine.
+func (h *verifC36H) request(ctxEnded bool) {
+	r := &verifC36Req{ctx: &verifCtx{done: make(chan struct{})}, pre: ctxEnded}
+	if ctxEnded {
+		r.ctx.err = h.ctxErr
+		close(r.ctx.done)
+	}
+	r.start = verifClock()
+	r.d = h.delays[h.ref]
+	h.reqs = append(h.reqs, r)
+	go func() {
+		err := h.t.Delay(r.ctx)
+		r.end = verifClock()
+		r.err = err
+		r.done.Store(1)
+	}()
+	verifSettle()
+}
+
+// cancel ends the context of the oldest request that is still waiting; false if there is none.
+func (h *verifC36H) cancel() bool {
+	for _, r := range h.reqs {
+		if r.done.Load() == 0 && r.ctx.err == nil {
+			r.canceled = true
+			r.cancelAt = verifClock()
+			r.ctx.err = h.ctxErr
+			close(r.ctx.done)
+			verifSettle()
+			return true
+		}
+	}
+	return false
+}
+
+// nextEvent: the earliest coming instant at which the reference says something happens.
+func (h *verifC36H) nextEvent() (int64, bool) {
+	next, have := int64(0), false
+	if h.armed {
+		next, have = h.idleAt, true
+	}
+	for _, r := range h.reqs {
+		if r.seen {
+			continue
+		}
+		e := r.start + int64(r.d)
+		if !have || e < next {
+			next, have = e, true
+		}
+	}
+	return next, have
+}
+
+// sleep moves the model clock: to the next event exactly (exact), or to an instant before it.
+func (h *verifC36H) sleep(exact bool, name string) bool {
+	next, have := h.nextEvent()
+	now := verifClock()
+	var a int64
+	if exact {
+		if !have {
+			return false
+		}
+		a = next - now
+	} else {
+		a = verifI64(name)
+		verifAssume(a > 0)
+		if have {
+			verifAssume(a < next-now)
+		} else {
+			verifAssume(a < (1 << 40))
+		}
+	}
+	time.Sleep(time.Duration(a))
+	verifSettle()
+	if h.armed && verifClock() >= h.idleAt {
+		// the idle timeout has passed without Signal/Release: back to zero, timer at rest
+		verifReach("idle-expired")
+		for _, r := range h.reqs {
+			if !r.seen && r.done.Load() == 0 {
+				verifReach("idle-expired-while-request-waits")
+			}
+		}
+		h.ref = 0
+		h.armed = false
+	}
+	return true
+}
+
+// checkRequests: every request is finished exactly when the statement says so.
+func (h *verifC36H) checkRequests() {
+	now := verifClock()
+	for _, r := range h.reqs {
+		if r.seen {
+			continue
+		}
+		done := r.done.Load() == 1
+		due := r.start + int64(r.d)
+		switch {
+		case r.pre && r.d > 0:
+			// the context had ended already: no wait at all
+			verifAssert("C36-ended-context-returns-at-once", done)
+			verifAssert("C36-ended-context-error", r.err == h.ctxErr && r.end == r.start)
+			r.seen = true
+		case r.canceled:
+			verifReach("context-ended-while-waiting")
+			verifAssert("C36-context-end-stops-the-wait-at-once", done)
+			verifAssert("C36-context-end-error", r.err == h.ctxErr && r.end == r.cancelAt)
+			r.seen = true
+		case done:
+			verifAssert("C36-request-waits-the-delay-current-at-its-start", r.end == due)
+			verifAssert("C36-request-returns-nil", r.err == nil)
+			r.seen = true
+		default:
+			verifAssert("C36-request-waits-no-longer-than-delay", now < due)
+		}
+	}
+}
+
+func (h *verifC36H) waiting() int {
+	k := 0
+	for _, r := range h.reqs {
+		if r.done.Load() == 0 {
+			k++
+		}
+	}
+	return k
+}
+
+// VerifC36Conc: bounded sequences of concurrent calls against the reference.
+func VerifC36Conc() {
+	verifC36UseNativeRest()
+	n := 2 + verifChoice("tableLen", 2) // 2..3
+	rate := 1 + verifChoice("rate", 2)
+	idleOn := verifChoice("idleOn", 2) == 1
+	h := verifC36NewH(n, rate, idleOn)
+	defer h.cleanup()
+	// reach the start level by pressure signals (this also starts the idle timeout)
+	pre := verifChoice("startLevel", n)
+	for i := 0; i < pre; i++ {
+		h.signal()
+	}
+	K := 3
+	if verifTier() == 1 {
+		K = 4
+	}
+	for i := 0; i < K; i++ {
+		w := h.waiting()
+		switch verifChoice(verifName("op", i), 8) {
+		case 0:
+			h.signal()
+			if w > 0 {
+				verifReach("signal-while-request-waits")
+			}
+		case 1:
+			h.release()
+			if w > 0 {
+				verifReach("release-while-request-waits")
+			}
+		case 2:
+			h.reset()
+		case 3:
+			h.request(false)
+			if w > 0 {
+				verifReach("two-requests-waiting")
+			}
+		case 4:
+			h.request(true)
+		case 5:
+			if !h.cancel() {
+				return
+			}
+		case 6:
+			if !h.sleep(true, "") {
+				return
+			}
+		case 7:
+			h.sleep(false, verifName("sleep", i))
+		}
+		h.checkRequests()
+		h.observe()
+	}
 }
